@@ -755,7 +755,9 @@ Proof.
   intros Hl0 Hlt Hlp Hpar Hrng.
   match goal with |- exists out, kfor 0 length ?body _ = _ /\ _ =>
     destruct (kfor_inv body
-      (fun j out => zlen out = zlen out1 /         (forall q, 0 <= q < j -> at_ out q = at_ out1 q + at_ shifts (at_ out1 q) - at_ starts (at_ parents q)) /         (forall q, j <= q -> at_ out q = at_ out1 q))
+      (fun j out => zlen out = zlen out1 /\
+         (forall q, 0 <= q < j -> at_ out q = at_ out1 q + at_ shifts (at_ out1 q) - at_ starts (at_ parents q)) /\
+         (forall q, j <= q -> at_ out q = at_ out1 q))
       0 length out1) as (s' & E & L & A & B); auto end.
   - split; auto. split; auto. intros q Hq. lia.
   - intros j out Hj (L & A & B). pose proof (Hpar j Hj) as Pj. pose proof (Hrng j Hj) as Rng.
@@ -814,7 +816,7 @@ Proof.
         apply B. lia.
     + exists st'. split; auto.
       now replace (at_ offsets (i + 1) - at_ offsets 0) with (at_ offsets i - at_ offsets 0 + (at_ offsets (i + 1) - at_ offsets i)) by lia.
-  - cbn [fst snd] in *. rewrite E1. cbn [kbind fst].
+  - cbn [fst snd] in *. rewrite E1. cbn [kbind fst]. clear E1. clear inv.
     assert (Seg : forall q, 0 <= q < length -> exists i, 0 <= i < offsetslength - 1 /\
                     at_ offsets i - at_ offsets 0 <= q < at_ offsets (i + 1) - at_ offsets 0).
     { intros q Hq.
@@ -828,10 +830,11 @@ Proof.
     assert (Hl0 : 0 <= length) by (pose proof (Mono 0 (offsetslength - 1)); lia).
     destruct (d3_rearrange_loop2 out1 shifts length parents starts) as (s' & E & L & A & B); auto; try lia.
     { intros q Hq. destruct (Seg q Hq) as (i & Hi & Hqi). rewrite (A1 i q Hi Hqi) by lia. apply Hseg; auto; lia. }
-    exists s'. split; auto. split; [lia|]. split.
-    + intros i q Hi Hq. assert (Hql : q < length).
-      { pose proof (Mono (i + 1) (offsetslength - 1)). lia. }
-      assert (0 <= q) by (pose proof (Mono 0 i); lia).
-      rewrite A by lia. rewrite (A1 i q Hi Hq) by lia. reflexivity.
-    + intros c Hc. rewrite B by lia. apply B1. lia.
+    exists s'. split; auto. split; [congruence|]. split.
+    + intros i q Hi Hq.
+      assert (Hql : 0 <= q < length).
+      { pose proof (Mono (i + 1) (offsetslength - 1)) as M1. pose proof (Mono 0 i) as M2.
+        clear - M1 M2 Hi Hq Hcover Hol. lia. }
+      rewrite (A q Hql). rewrite (A1 i q Hi Hq) by (clear - Hql K1 Hcover; lia). reflexivity.
+    + intros c Hc. rewrite (B c Hc). apply B1. clear - Hc K1 Hcover. lia.
 Qed.
